@@ -196,6 +196,9 @@ impl CencSpec {
 pub enum CarouselSpec {
     DelayMs(u64),
     IntervalMs(u64),
+    /// a delay / an interval that never elapses (Duration::MAX): "repeat only when triggered", "send each FDT once"
+    DelayMax,
+    IntervalMax,
 }
 
 impl CarouselSpec {
@@ -207,6 +210,8 @@ impl CarouselSpec {
             CarouselSpec::IntervalMs(ms) => {
                 CarouselRepeatMode::IntervalBetweenStartTimes(Duration::from_millis(*ms))
             }
+            CarouselSpec::DelayMax => CarouselRepeatMode::DelayBetweenTransfers(Duration::MAX),
+            CarouselSpec::IntervalMax => CarouselRepeatMode::IntervalBetweenStartTimes(Duration::MAX),
         }
     }
 }
